@@ -179,6 +179,16 @@ theorem emb_not_sym (e : Expr) (x : Node) (h : Emb e x) (hs : ∀ s, e ≠ .sym 
   | field a => obtain ⟨p, y, rfl, _⟩ := h; rfl
   | call f as => obtain ⟨p, p', wr, ops, rfl, _⟩ := h; rfl
   | list as => obtain ⟨p, p', ops, rfl, _⟩ := h; rfl
+  | key v => obtain ⟨p, rfl⟩ := h; rfl
+  | movie v => rcases h with ⟨p, rfl⟩ | ⟨p, q, o, rfl, _⟩ <;> rfl
+  | the t k as =>
+    cases as with
+    | cons y ys => cases t <;> exact absurd h (by simp [Emb])
+    | nil =>
+      cases t with
+      | sys => simp only [Emb] at h; obtain ⟨p, q, o, rfl, _⟩ := h; rfl
+      | special => simp only [Emb] at h; obtain ⟨p, rfl⟩ := h; rfl
+      | _ => exact absurd h (by simp [Emb])
   | _ => exact absurd h (by simp [Emb])
 
 /-- texts of an argument list, in source order -/
@@ -347,16 +357,9 @@ theorem constJs_string (s : Str) :
   have hq : startsWith (escapeString s) ['"'] = true := by simp [startsWith, escapeString, List.isPrefixOf]
   simp only [constJs, hq, if_true, escapeString_body, escQ]
 
-theorem knownProp_false (n : Str) (h : knownProp n = false) : ∃ e, dictGet PropTables.knownPropertiesVariable n = .error e := by
-  unfold knownProp dictHas at h
-  unfold dictGet
-  cases hf : PropTables.knownPropertiesVariable.find? (fun kv => kv.1.toList == n) with
-  | none => exact ⟨_, rfl⟩
-  | some kv =>
-    have h1 := List.find?_some hf
-    have h2 := List.mem_of_find?_eq_some hf
-    have : PropTables.knownPropertiesVariable.any (fun kv => kv.1.toList == n) = true := List.any_eq_true.mpr ⟨kv, h2, h1⟩
-    rw [this] at h; cases h
+/-- `DefinedPropertyName.generate_js` (after the repair F139: always the script object) -/
+theorem leafJs_definedProp (v : Str) : leafJs .definedProp (.s v) true = .s (S "this." ++ v) := by
+  simp [leafJs, Name.str, S]
 
 theorem receiver_tx (c : JCtx) (a : Expr) (h : JsOkE a = true) :
     jsReceiver (txJ (toJsE c a)) = if (toJsE c a).needsParen then S "(" ++ txJ (toJsE c a) ++ S ")" else txJ (toJsE c a) := by
@@ -398,9 +401,7 @@ theorem js_emb (c : JCtx) : ∀ (e : Expr), JsOkE e = true → ∀ (n : Node), E
     simp [js, leafJs, toJsE, jid, txJ, S, Name.str, JE.needsParen]
   | .var .prop v, hf, n, h, ind => by
     obtain ⟨p, rfl⟩ := h
-    simp only [JsOkE, Bool.and_eq_true, Bool.not_eq_true'] at hf
-    obtain ⟨e, he⟩ := knownProp_false v hf.2
-    simp only [js, leafJs, he, if_true, toJsE, txJ, jid, np_id, Name.str]
+    simp only [js, leafJs_definedProp v, toJsE, txJ, jid, np_id]
     simp [S]
   | .un o a, hf, n, h, ind => by
     obtain ⟨p, x, rfl, hx⟩ := h
